@@ -273,6 +273,12 @@ func (a *aggregate) merge(s *stream, r *workerResult, n int) {
 	a.mu.Lock()
 	defer a.mu.Unlock()
 	for k, v := range r.Counters {
+		if strings.HasPrefix(k, "max_") {
+			if v > a.counters[k] {
+				a.counters[k] = v
+			}
+			continue
+		}
 		a.counters[k] += v
 	}
 	for _, h := range r.Distinct {
@@ -569,7 +575,9 @@ func runSupervisor(p *propDef) int {
 		exit = 2
 	}
 	for _, m := range floorFail {
-		fmt.Println("INCONCLUSIVE (monitor observed too little):", m)
+		if exit != 1 {
+			fmt.Println("INCONCLUSIVE (monitor observed too little):", m)
+		}
 	}
 	for i, m := range agg.inconclusive {
 		if i < 10 {
